@@ -18,6 +18,7 @@
 -/
 import D128.Proofs.CohortElemBase
 import D128.Proofs.LogAccLog
+import D128.Proofs.LogAccTop
 set_option autoImplicit false
 set_option maxRecDepth 4096
 set_option linter.unusedVariables false
@@ -70,49 +71,49 @@ theorem msd2_congr (n n' : U192) (k : Nat) (hn : n.toNat ≠ 0) (h : n'.toNat = 
 theorem conv_log' (L : Nat) (hL : L ≤ 57) : ((Go.conv (Int64.ofNat L) : Int16)).toInt = L :=
   LogAcc.conv_log L hL (Int64_toInt_ofNat_small _ (by omega))
 
+/-- exponent arithmetic of `log_congr_sc`, isolated from the large context -/
+theorem log_exp_aux (x y cL cL' : Int16) (L L' k : Nat) (hc : cL.toInt = L) (hc' : cL'.toInt = L')
+    (hL : L ≤ 57) (hL' : L' ≤ 57) (hLL : L' = L + k) (hexp : x.toInt = y.toInt + k)
+    (he : -16000 ≤ x.toInt ∧ x.toInt ≤ 16000) (he' : -16000 ≤ y.toInt ∧ y.toInt ≤ 16000) :
+    x + cL = y + cL' ∧ (-cL).toInt = -(L : Int) ∧ (-cL').toInt = -(L' : Int) := by
+  refine ⟨?_, ?_, ?_⟩
+  · apply Int16.toInt_inj.mp
+    rw [Int16.toInt_add_of _ _ (by rw [hc]; omega) (by rw [hc]; omega),
+      Int16.toInt_add_of _ _ (by rw [hc']; omega) (by rw [hc']; omega), hc, hc']
+    omega
+  · rw [Int16.toInt_neg, hc]; apply Int.bmod_eq_of_le <;> omega
+  · rw [Int16.toInt_neg, hc']; apply Int.bmod_eq_of_le <;> omega
+
 /-- `log` of a cohort member written with `k` more trailing zeros -/
 theorem log_congr_sc (a a' : decomposed192) (k : Nat) (hs : Sc k a a') (ha : a.sig.toNat ≠ 0)
     (hu' : a'.sig.toNat < 10 * LIM)
     (he : -16000 ≤ a.exp.toInt ∧ a.exp.toInt ≤ 16000) (he' : -16000 ≤ a'.exp.toInt ∧ a'.exp.toInt ≤ 16000) :
     Gen.decomposed192.log a = Gen.decomposed192.log a' := by
-  obtain ⟨hsig, hexp⟩ := hs
-  have ha' : a'.sig.toNat ≠ 0 := by rw [hsig]; exact Nat.mul_ne_zero ha (by positivity)
+  have ha' : a'.sig.toNat ≠ 0 := by rw [hs.1]; exact Nat.mul_ne_zero ha (by positivity)
   have hu : a.sig.toNat < 10 * LIM := by
     have : a.sig.toNat ≤ a.sig.toNat * 10 ^ k := Nat.le_mul_of_pos_right _ (by positivity)
+    have h1 := hs.1
     omega
   have hL := Nat_log10_le_57_of_lt a.sig.toNat (U192.toNat_lt a.sig)
   have hL' := Nat_log10_le_57_of_lt a'.sig.toNat (U192.toNat_lt a'.sig)
-  have hLL : Nat.log 10 a'.sig.toNat = Nat.log 10 a.sig.toNat + k := by rw [hsig, log10_mul_pow _ _ ha]
-  set L := Nat.log 10 a.sig.toNat with hLdef
-  set L' := Nat.log 10 a'.sig.toNat with hLdef'
-  obtain ⟨m, m', hm, hm', hM⟩ := msd2_congr a.sig a'.sig k ha hsig
-  have hc := conv_log' L hL
-  have hc' := conv_log' L' hL'
-  have hneg : (-(Go.conv (Int64.ofNat L) : Int16)).toInt = -(L : Int) := by
-    rw [Int16.toInt_neg, hc]; apply Int.bmod_eq_of_le <;> omega
-  have hneg' : (-(Go.conv (Int64.ofNat L') : Int16)).toInt = -(L' : Int) := by
-    rw [Int16.toInt_neg, hc']; apply Int.bmod_eq_of_le <;> omega
-  -- the decimal exponent
-  have hE : a.exp + (Go.conv (Int64.ofNat L) : Int16) = a'.exp + (Go.conv (Int64.ofNat L') : Int16) := by
-    apply Int16.toInt_inj.mp
-    rw [Int16.toInt_add_of _ _ (by rw [hc]; omega) (by rw [hc]; omega),
-      Int16.toInt_add_of _ _ (by rw [hc']; omega) (by rw [hc']; omega), hc, hc']
-    omega
+  have hLL : Nat.log 10 a'.sig.toNat = Nat.log 10 a.sig.toNat + k := by rw [hs.1, log10_mul_pow _ _ ha]
+  obtain ⟨m, m', hm, hm', hM⟩ := msd2_congr a.sig a'.sig k ha hs.1
+  obtain ⟨hE, hneg, hneg'⟩ := log_exp_aux a.exp a'.exp _ _ _ _ k (conv_log' _ hL) (conv_log' _ hL') hL hL' hLL hs.2 he he'
   -- the scaled significand
-  have hS : logScale { sig := a.sig, exp := -(Go.conv (Int64.ofNat L) : Int16) }
-      = logScale { sig := a'.sig, exp := -(Go.conv (Int64.ofNat L') : Int16) } := by
-    apply logScale_congr { sig := a.sig, exp := -(Go.conv (Int64.ofNat L) : Int16) }
-      { sig := a'.sig, exp := -(Go.conv (Int64.ofNat L') : Int16) } ha ha' hu hu'
-    · show -32000 ≤ (-(Go.conv (Int64.ofNat L) : Int16)).toInt
-      rw [hneg]; omega
-    · show -32000 ≤ (-(Go.conv (Int64.ofNat L') : Int16)).toInt
-      rw [hneg']; omega
+  have hS : logScale { sig := a.sig, exp := -(Go.conv (Int64.ofNat (Nat.log 10 a.sig.toNat)) : Int16) }
+      = logScale { sig := a'.sig, exp := -(Go.conv (Int64.ofNat (Nat.log 10 a'.sig.toNat)) : Int16) } := by
+    apply logScale_congr { sig := a.sig, exp := -(Go.conv (Int64.ofNat (Nat.log 10 a.sig.toNat)) : Int16) }
+      { sig := a'.sig, exp := -(Go.conv (Int64.ofNat (Nat.log 10 a'.sig.toNat)) : Int16) } ha ha' hu hu'
+    · show -32000 ≤ (-(Go.conv (Int64.ofNat (Nat.log 10 a.sig.toNat)) : Int16)).toInt
+      rw [hneg]; clear hLL hE hneg hneg'; omega
+    · show -32000 ≤ (-(Go.conv (Int64.ofNat (Nat.log 10 a'.sig.toNat)) : Int16)).toInt
+      rw [hneg']; clear hLL hE hneg hneg'; omega
     · apply Sc.val (k := k)
-      exact ⟨hsig, by show (-(Go.conv (Int64.ofNat L) : Int16)).toInt = (-(Go.conv (Int64.ofNat L') : Int16)).toInt + k
-                      rw [hneg, hneg']; omega⟩
-  rw [log_eq, log_eq, U192_log10_eq, U192_log10_eq, hm, hm']
-  simp only [bind, Except.bind]
-  rw [← hLdef, ← hLdef', hS, hE, hM]
+      refine ⟨hs.1, ?_⟩
+      show (-(Go.conv (Int64.ofNat (Nat.log 10 a.sig.toNat)) : Int16)).toInt
+        = (-(Go.conv (Int64.ofNat (Nat.log 10 a'.sig.toNat)) : Int16)).toInt + k
+      rw [hneg, hneg', hLL]; push_cast; ring
+  rw [log_eq, log_eq, U192_log10_eq, U192_log10_eq, hm, hm', RK.ok_bind, RK.ok_bind, RK.ok_bind, RK.ok_bind, hS, hE, hM]
 
 /-- **`decomposed192.log` is a function of the value of its argument.** -/
 theorem log_congr (a a' : decomposed192) (hv : val a = val a') (ha : a.sig.toNat ≠ 0) (ha' : a'.sig.toNat ≠ 0)
@@ -163,5 +164,18 @@ theorem log10_encoding_independent (g : Globals) (d d' : Decimal) (h : (𝔳[d])
   obtain ⟨h1', hsb, hz, -⟩ := fin_args d d' h h1
   rw [Log10_eq g d h1 h2 h3, Log10_eq g d' h1' (by rw [hz]; exact h2) (by rw [hsb]; exact h3),
     logArg_congr d d' h h1 h2]
+
+end CohortElem
+
+namespace CohortElem
+open Gen
+
+/-- hypotheses satisfiable: 7 written `7e0` and `7000e-3` -/
+example (g : Globals) := log_encoding_independent g (Gen.compose false ⟨7, 0⟩ 6176) (Gen.compose false ⟨7000, 0⟩ 6173)
+  (by decide +kernel) (by decide) (by decide) (by decide)
+example (g : Globals) := log2_encoding_independent g (Gen.compose false ⟨7, 0⟩ 6176) (Gen.compose false ⟨7000, 0⟩ 6173)
+  (by decide +kernel) (by decide) (by decide) (by decide)
+example (g : Globals) := log10_encoding_independent g (Gen.compose false ⟨123456, 0⟩ 6173)
+  (Gen.compose false ⟨12345600, 0⟩ 6171) (by decide +kernel) (by decide) (by decide) (by decide)
 
 end CohortElem
